@@ -200,6 +200,35 @@ namespace
         }
     };
 
+    // a Segregatable of the user's own: nodes by their size, arrays by their *element* size (the two questions are different
+    // functions; threshold_segregatable happens to answer both from the total size)
+    template <class RawAllocator>
+    class by_element_size : RawAllocator
+    {
+    public:
+        using allocator_type = RawAllocator;
+        by_element_size(std::size_t max_elem, RawAllocator a) : RawAllocator(std::move(a)), max_(max_elem) {}
+        bool use_allocate_node(std::size_t size, std::size_t) noexcept
+        {
+            return size <= max_;
+        }
+        bool use_allocate_array(std::size_t, std::size_t size, std::size_t) noexcept
+        {
+            return size <= max_;
+        }
+        allocator_type& get_allocator() noexcept
+        {
+            return *this;
+        }
+        const allocator_type& get_allocator() const noexcept
+        {
+            return *this;
+        }
+
+    private:
+        std::size_t max_;
+    };
+
     struct leaves
     {
         std::vector<probe_handle> h;
@@ -984,6 +1013,38 @@ namespace
                             env.lv.check();
                         }
                         env.lv.check();
+                        {
+                            // a constructor that throws: the node obtained for the object goes back to the leaf, as the node it was
+                            struct thrower
+                            {
+                                char c[24];
+                                thrower()
+                                {
+                                    throw 17;
+                                }
+                            };
+                            auto live0 = env.lv.h[0]->live.size();
+                            try
+                            {
+                                auto t = allocate_unique<thrower>(leaf);
+                                viol("C09", "C09/" + kind + "/harness", "the constructor failure did not propagate");
+                            }
+                            catch (int)
+                            {
+                            }
+                            try
+                            {
+                                auto t = allocate_unique<thrower>(any_allocator{}, leaf);
+                                viol("C09", "C09/" + kind + "/harness", "the constructor failure did not propagate");
+                            }
+                            catch (int)
+                            {
+                            }
+                            env.lv.check();
+                            if (env.lv.h[0]->live.size() != live0)
+                                viol("C09", "C09/" + kind + "/memory-not-returned",
+                                     "allocate_unique with a throwing constructor left %zu blocks on the allocator", env.lv.h[0]->live.size() - live0);
+                        }
                         count_("smart_pointers", 9);
                         if (r.chance(50))
                             b2.reset();
@@ -1193,6 +1254,10 @@ int main(int argc, char** argv)
         using SEG = binary_segregator<threshold_segregatable<probe_raw>, probe_raw>;
         forward_kind<SEG>(a, "segregator<threshold(64) leaf,leaf>", [&](fwd_env& e, rng&) { return std::unique_ptr<SEG>(new SEG(threshold(64, L(e)), L(e))); }, BIG,
                           16, false);
+        using SEGe = binary_segregator<by_element_size<probe_raw>, probe_raw>;
+        forward_kind<SEGe>(a, "segregator<by-element-size(64) leaf,leaf>", [&](fwd_env& e, rng&) {
+            return std::unique_ptr<SEGe>(new SEGe(by_element_size<probe_raw>(64, L(e)), L(e)));
+        }, BIG, 16, false);
         using SEG3 = segregator<threshold_segregatable<probe_raw>, threshold_segregatable<probe_raw>, probe_raw>;
         forward_kind<SEG3>(a, "segregator<64,256,leaf>", [&](fwd_env& e, rng&) {
             return std::unique_ptr<SEG3>(new SEG3(make_segregator(threshold(64, L(e)), threshold(256, L(e)), L(e))));
